@@ -27,7 +27,7 @@ RULE = (
 )
 
 G = 1 / 64
-RUNNERS = ["r1", "r2", "r3", "c1", "c2"]  # c* are child workers of parent r1
+RUNNERS = ["r1", "c1", "c2"]  # c* are child workers of parent r1 (few runners: owners and heartbeats must meet often)
 
 
 class Model:
@@ -342,7 +342,7 @@ def machine_shard(seed: int, examples: int, steps: int, known: list[str]) -> dic
 def run(ctx: Ctx) -> None:
     known = sorted(ctx.known_keys())
     n = ncpu()
-    ex = 25 if ctx.quick else 400
+    ex = 40 if ctx.quick else 500
     merge_parts(ctx, pmap(machine_shard, [(ctx.seed * 1000 + k, ex, 45, known) for k in range(n)]))
     ctx.assumptions.append("stepped virtual clock on a 1/64 s grid: float/datetime/SQLite REAL comparisons at a limit are exact, the model demands the documented side of >= / > without tolerance")
     ctx.assumptions.append("lost races are injected at a chosen point: the owner's next transition is issued between the scan yielding an id and the recovery transition for it")
